@@ -348,17 +348,11 @@ def _control_matrix_at_timestep_derivative(
         l.reshape(n_nops, n_ctrl, d2, d, order='F'),
         i1.reshape(n_omega, d2, d, order='F')
     ).reshape(n_nops, n_ctrl, n_omega, d, d, order='F')
-    if d == 2:
-        # Life a bit simpler
-        mask = np.eye(d, dtype=bool)
-        M[..., mask] -= M[..., mask][..., ::-1]
-        M[..., ~mask] *= 2
-    else:
-        M -= np.einsum(
-            'ahpn,opn->ahop',
-            k.swapaxes(-2, -3).reshape(n_nops, n_ctrl, d2, d, order='F'),
-            i2.reshape(n_omega, d2, d, order='F')
-        ).reshape(n_nops, n_ctrl, n_omega, d, d, order='F').swapaxes(-1, -2)
+    M -= np.einsum(
+        'ahpn,opn->ahop',
+        k.swapaxes(-2, -3).reshape(n_nops, n_ctrl, d2, d, order='F'),
+        i2.reshape(n_omega, d2, d, order='F')
+    ).reshape(n_nops, n_ctrl, n_omega, d, d, order='F').swapaxes(-1, -2)
 
     # Expand in basis transformed to eigenspace. Include phase factor and
     # factor 1j here to make use of optimized contraction order
